@@ -103,6 +103,9 @@ func selectFor(prop string) (func(string, *vc.FuncContract) bool, func(*vc.Lemma
 			if hasProp(fc.Props, prop) {
 				return true
 			}
+			if prop == "C09" && !fc.Trusted && !fc.Abstract {
+				return true // frame obligations of every verified function
+			}
 			for _, cls := range [][]*vc.Clause{fc.Requires, fc.Ensures} {
 				for _, cl := range cls {
 					if hasProp(cl.Props, prop) {
@@ -392,22 +395,22 @@ func Check(opts Options) int {
 		"seed":        opts.Seed,
 		"level":       "proof",
 		"coverage": map[string]any{
-			"obligations":             nObl,
-			"discharged":              nDis,
-			"checker_cmd":             fmt.Sprintf("/verif/bin/govc check -prop %s -tier %s -root %s", prop, tierName(opts.Tier), opts.Root),
-			"trusted_base":            trusted,
-			"functions_under_contract": funcs,
-			"obligations_by_kind":     byKind,
-			"discharged_by_solver":    bySolver,
-			"vacuity_guards":          nCover,
-			"bounded_standins":        map[string]any{"obligations": nBounded, "ok": nBoundedOK, "note": "bounded stand-ins are not counted in obligations/discharged"},
-			"known_findings":          knownList,
+			"obligations":                         nObl,
+			"discharged":                          nDis,
+			"checker_cmd":                         fmt.Sprintf("/verif/bin/govc check -prop %s -tier %s -root %s", prop, tierName(opts.Tier), opts.Root),
+			"trusted_base":                        trusted,
+			"functions_under_contract":            funcs,
+			"obligations_by_kind":                 byKind,
+			"discharged_by_solver":                bySolver,
+			"vacuity_guards":                      nCover,
+			"bounded_standins":                    map[string]any{"obligations": nBounded, "ok": nBoundedOK, "note": "bounded stand-ins are not counted in obligations/discharged"},
+			"known_findings":                      knownList,
 			"returns_unreachable_under_contracts": unreachable,
-			"samples":                 samples,
-			"solver_seconds_total":    round2(solverSecs),
-			"load_seconds":            round2(rr.LoadSecs),
-			"generate_seconds":        round2(rr.GenSecs),
-			"explanation":             "each obligation is an SMT query generated from the typed AST of the function in /repo's working tree and its //@ contract; names are pkg.func#kind.label",
+			"samples":                             samples,
+			"solver_seconds_total":                round2(solverSecs),
+			"load_seconds":                        round2(rr.LoadSecs),
+			"generate_seconds":                    round2(rr.GenSecs),
+			"explanation":                         "each obligation is an SMT query generated from the typed AST of the function in /repo's working tree and its //@ contract; names are pkg.func#kind.label",
 		},
 		"assumptions": assumptions,
 		"wall_s":      round2(time.Since(start).Seconds()),
